@@ -4,5 +4,5 @@ CONSTANTS
   MaxGen = 6
   MaxCrashes = 3
 CONSTRAINT Bound
-INVARIANTS C10Inv TypeOK
+INVARIANTS C10Inv TypeOK MemOK
 CHECK_DEADLOCK FALSE
